@@ -924,6 +924,9 @@ func main() {
 		outCase(r.U64()%(maxMoney+1), txgen.Script(r, false))
 	}
 
+	// 3b. near-misses of every standard template in every container (nearmiss.go)
+	nearMisses(big)
+
 	// 4. amounts: exhaustive low range + decimal and binary boundaries up to 21e14
 	c.PerShard = 1
 	hi, step := uint64(10000), uint64(1000)
@@ -962,6 +965,6 @@ func main() {
 		amountList(l)
 	}
 
-	c.Stats.Rule = "transactions at every build stage through the public API (tx.From = unsigned, FillInput on one input = partially signed, FillAllInputs = signed, NewTxFromBytes of the extended bytes = decoded) plus generated transactions (nil/empty unlocking scripts, arbitrary output script bytes, boundary uint32/uint64 values), each marshalled and unmarshalled in the library and the node dialect and with the node document's hex removed (vin/vout path); transactions whose locking / unlocking scripts are data scripts with two pushes of 0..6 bytes each (both carrier forms), zero-length PUSHDATA forms alone and concatenated, truncated pushes and lone opcodes; marshalling must leave the source transaction byte-identical; lists of 0/1/2/5, also unmarshalled into variables that already hold three transactions (with and without spare capacity); outputs and UTXOs over boundary amounts (0,1,2,3,6,dust,1e8+-1,21e14+-1,2^53,2^63,2^64-1) x script shapes incl. nil script / odd txid lengths for UTXOs; amounts: every amount 0..9999 (thorough: 0..2,999,999) in ranges of 1000, k*10^j-1/+0/+1/+half for k in 1..9,21 and j in 0..15, 2^k-1/+0/+1 for k in 0..51, and random amounts up to 21e14 - each observed through output.NodeJSON() and utxo.NodeJSON() (float64 bits of the value written, satoshis read back). distinct = distinct serialised input; non-trivial = transactions with at least one input or output, every output/UTXO/amount case"
+	c.Stats.Rule = "transactions at every build stage through the public API (tx.From = unsigned, FillInput on one input = partially signed, FillAllInputs = signed, NewTxFromBytes of the extended bytes = decoded) plus generated transactions (nil/empty unlocking scripts, arbitrary output script bytes, boundary uint32/uint64 values), each marshalled and unmarshalled in the library and the node dialect and with the node document's hex removed (vin/vout path); transactions whose locking / unlocking scripts are data scripts with two pushes of 0..6 bytes each (both carrier forms), zero-length PUSHDATA forms alone and concatenated, truncated pushes and lone opcodes; marshalling must leave the source transaction byte-identical; lists of 0/1/2/5, also unmarshalled into variables that already hold three transactions (with and without spare capacity); NEAR-MISSES of every standard script template (harness/scriptnear: P2PKH, P2PK 33/65, P2SH, bare multisig 0-of-1 / 1-of-1 / 1-of-2 / 2-of-3 / 15-of-15 / 1-of-16 / 16-of-16, both data carriers, four P2PKH inscriptions built by Tx.Inscribe, three unlocking-script shapes): each token and each range of tokens removed, each token doubled, each push re-cut to the lengths 0..3, n-2..n+2, 18..22, 32..34, 64..66, 75, 76 (every length 0..24 for a hash), replaced by the empty / long push forms, cut short, re-encoded, each opcode replaced by every small-integer opcode with both neighbours and by the template opcodes, all pushes emptied or cut to 1..3 bytes at once and in pairs, every truncation, single bytes at the structural positions (thorough: every value), and a grid OP_m <k keys> OP_n OP_CHECKMULTISIG over m in {0,1,2,16} x n in OP_0, OP_1NEGATE..OP_NOP x k in {0,1,2,3,15,16,17} keys present - each script with capacity = length in an output, in a transaction as locking script (every other one also as unlocking script; as built and as decoded), in a UTXO, and eight at a time in lists of transactions and of UTXOs, both dialects and the vin/vout path (Go level, all cores); a seed-chosen 1/97 of them (thorough 1/211) through the full transaction / output / UTXO cases and 1/13 (thorough 1/47) as CNodeScript cases (asm, reqSigs, type of the node document against the model of bscript's inspection code that the any-script theorems are about); outputs and UTXOs over boundary amounts (0,1,2,3,6,dust,1e8+-1,21e14+-1,2^53,2^63,2^64-1) x script shapes incl. nil script / odd txid lengths for UTXOs; amounts: every amount 0..9999 (thorough: 0..2,999,999) in ranges of 1000, k*10^j-1/+0/+1/+half for k in 1..9,21 and j in 0..15, 2^k-1/+0/+1 for k in 0..51, and random amounts up to 21e14 - each observed through output.NodeJSON() and utxo.NodeJSON() (float64 bits of the value written, satoshis read back). distinct = distinct serialised input; non-trivial = transactions with at least one input or output, every output/UTXO/amount case"
 	c.Finish()
 }
